@@ -1610,7 +1610,8 @@ class Mps(MatrixProduct):
             else:
                 tensor = tensordot(tensor, ms, ([0,-1,-2],[0,-1,-2]))
             assert xp.allclose(tensor, tensor.T.conj())
-            rdm[ims] = asnumpy(tensor)
+            # `tensor` is indexed (bra, ket). rho[a, b] = <a|rho|b> is indexed (ket, bra)
+            rdm[ims] = asnumpy(tensor.T)
 
         return rdm
     
@@ -1668,7 +1669,8 @@ class Mps(MatrixProduct):
                 rtensor = R_component[jms]
                 res = tensordot(tensor, rtensor,
                         ([2,3],[0,1])).transpose(0,2,1,3)
-                rdm[(ims, jms)] = asnumpy(res.reshape(res.shape[0]*res.shape[1],-1))
+                # `res` is indexed (bra_i, bra_j, ket_i, ket_j). rho[ab, cd] = <ab|rho|cd> is indexed (ket, bra)
+                rdm[(ims, jms)] = asnumpy(res.reshape(res.shape[0]*res.shape[1],-1).T)
         return rdm
     
     def calc_edof_rdm(self) -> np.ndarray:
